@@ -6,6 +6,7 @@ CONSTANTS
     GrantPathOrder <- MCGrantAbs
     OptOrder <- MCOptOrder
     MaxGranted = 0
+    ChainOnly = FALSE
     AdminMaxGranted = 0
     MaxSegs = 1
     RelPathOrder <- MCEmpty
